@@ -313,6 +313,9 @@ class Recorder(object):
                 "from": _id(comp.placed_workplace) if comp.placed_workplace is not None else None,
                 "to": _id(dest) if dest is not None else None,
                 "working": any(int(t.state) == WORKING for t in comp.targeted_task_list),
+                # a task of the component already holds workers (given to it earlier in this allocation pass): it starts
+                # WORKING in this very step, at the place where the component is now
+                "holding": [t.ID for t in comp.targeted_task_list if len(t.allocated_worker_list) > 0],
                 "after_updated": bool(self.cur is not None and "updated" in self.cur.ph and "allocated" not in self.cur.ph),
             }
             if self.cur is not None and "recorded" not in self.cur.ph:
